@@ -24,6 +24,7 @@ import (
 )
 
 type ScenInit struct {
+	Nin     int             `json:"nin"`
 	Bare    bool            `json:"bare"`
 	Sid     int             `json:"sid"`
 	R       []int           `json:"r"`
@@ -69,7 +70,7 @@ func twinDiff(a, b *Machine) string {
 func toInt(v interface{}) int { return int(v.(float64)) }
 
 func (si *ScenInit) Spec() *InitSpec {
-	is := &InitSpec{Bare: si.Bare, Sid: si.Sid, Halt: si.H != 0, Cells: dedupe(si.Cells), IOCells: si.IOCells, Pend: si.Pend}
+	is := &InitSpec{Nin: si.Nin, Bare: si.Bare, Sid: si.Sid, Halt: si.H != 0, Cells: dedupe(si.Cells), IOCells: si.IOCells, Pend: si.Pend}
 	copy(is.R[:], si.R)
 	is.Dev = DevDesc{Kind: si.Dev[0].(string), Seed: toInt(si.Dev[1]), Val: toInt(si.Dev[2]), Len: toInt(si.Dev[3]), Img: si.Img}
 	is.IO = IODesc{Kind: si.IO[0].(string), Seed: toInt(si.IO[1]), Len: toInt(si.IO[2])}
